@@ -39,6 +39,13 @@ func (cs c16Case) keys() []string {
 // counter as 7 decimal digits (first differences beyond the first 8-byte chunk,
 // only inside the digit range 0x30..0x39).
 func c16GenKeys(n, style int) []string {
+	if style == 2 {
+		// LONG keys: n is the length of a stem shared by six of eight keys (first differences at bit
+		// 8n and beyond), between a key that differs in the very first byte and agrees afterwards
+		// and one that differs in the first byte the other way
+		S := strings.Repeat("stemSTEM", n/8+1)[:n]
+		return []string{"\x00" + S[1:] + "x", S, S + "\x00", S + "a", S + "a\x00", S + "ab", S + "b", "\xff" + S[1:]}
+	}
 	keys := make([]string, n)
 	for i := range keys {
 		switch style {
@@ -63,8 +70,17 @@ func c16Big(c *mc.Ctx) {
 	for i := len(sizes) - 1; i >= 0; i-- { // largest first: better load balance
 		jobs = append(jobs, job{sizes[i], 0}, job{sizes[i], 1})
 	}
+	// LONG keys (style 2): eight keys around a shared stem of every threshold length from 81 bytes to
+	// 70000 (thorough 2^20+1) bytes - lengths and first-difference positions beyond 8, 16 bits of range
+	for _, l := range c16LongStems(c) {
+		jobs = append(jobs, job{l, 2})
+	}
 	for _, j := range jobs {
-		c.Expect(1 + 3*int64(len(c16BigRanges(int32(j.n)))))
+		nk := j.n
+		if j.style == 2 {
+			nk = 8
+		}
+		c.Expect(1 + 3*int64(len(c16BigRanges(int32(nk)))))
 	}
 	c.Par(len(jobs), func(ji int) {
 		if c.TooMany() {
@@ -85,7 +101,7 @@ func c16Big(c *mc.Ctx) {
 		evals := int64(1)
 		// CountPrefixes over the whole list, its halves, and short ranges around every 1/8th
 		sb := sigbits.New(keys)
-		n := int32(j.n)
+		n := int32(len(keys))
 		for _, r := range c16BigRanges(n) {
 			m0 := int32(1 << 30)
 			for k := r.s; k+1 < r.e; k++ {
@@ -114,8 +130,17 @@ func c16Big(c *mc.Ctx) {
 		}
 		c.Count(evals, evals)
 		c.Add("generated_key_lists", 1)
-		c.Max("largest_key_list", int64(j.n))
+		if j.style == 2 {
+			c.Max("longest_shared_stem_bytes", int64(j.n))
+		} else {
+			c.Max("largest_key_list", int64(j.n))
+		}
 	})
+}
+
+// c16LongStems: the stem lengths of the long-key lists (c16GenKeys style 2).
+func c16LongStems(c *mc.Ctx) []int {
+	return gen.ThresholdSizes(81, c.Pick(70000, 1<<20+1))
 }
 
 type c16Rg struct{ s, e int32 }
@@ -172,7 +197,7 @@ func init() {
 		ID:     "C16",
 		Word32: true,
 		Level:  "exploration",
-		Rule: "E1 bounded-exhaustive enumeration: key sets = every non-empty subset (in sorted order) of the 13 strings of length ≤2 over {00,'a',ff}, each behind the stems of 0/7/8/9/16/17/24/31/32/33/64/65 bytes; every subset of 12 keys built from 4 stem variants (first byte 's'/0x00/0xff, eighth byte 0x80); every subset of the 13 strings of length ≤2 over {'a',80,c3} and over {7f,80,bf} (UTF-8 continuation and lead bytes); every subset of 5 short keys behind EVERY stem length 0..80; two key sets with a full 256-byte fan-out below one key; four large key sets taken whole (31, 63, 121 and 341 keys); every subset of 12 keys built from 3 variants of a 17-byte (and of a 25-byte) stem that differ in the first 8-byte chunk and agree in the later ones × 4 tails; chains a, aa, aaa, ... of 33, 34, 65, 66 keys (C17 also 130 and 258) and a 36-level directory tree taken whole (deep nesting); every subset of the 15 strings of length ≤3 over {00,'a'} and every subset of size ≤4 of the 40 strings of length ≤3 over {00,'a',ff} behind stems of 0 and 8 bytes (thorough adds every subset of the 21 strings of length ≤2 over {00,01,'a',ff} and the subsets of size 5..6 of the 40 strings): FirstDiffBits on the set; New+CountPrefixes for every 0 ≤ s, s+2 ≤ e ≤ len and every m in {1,2,4,7,10,17}. Generated key lists of EVERY threshold size n = b-1, b, b+1 (b in 2^k, 3·2^k, 10^k, 2·10^k, 5·10^k) from 1000 up to 400001 keys (thorough: 2^20+1), in two styles ('k'+3-byte big-endian counter; 8-byte stem + 7 decimal digits): FirstDiffBits on the list, CountPrefixes (m in {1,7,17}) over the whole list, its halves and short ranges around every 1/8th. " +
+		Rule: "E1 bounded-exhaustive enumeration: key sets = every non-empty subset (in sorted order) of the 13 strings of length ≤2 over {00,'a',ff}, each behind the stems of 0/7/8/9/16/17/24/31/32/33/64/65 bytes; every subset of 12 keys built from 4 stem variants (first byte 's'/0x00/0xff, eighth byte 0x80); every subset of the 13 strings of length ≤2 over {'a',80,c3} and over {7f,80,bf} (UTF-8 continuation and lead bytes); every subset of 5 short keys behind EVERY stem length 0..80; two key sets with a full 256-byte fan-out below one key; four large key sets taken whole (31, 63, 121 and 341 keys); every subset of 12 keys built from 3 variants of a 17-byte (and of a 25-byte) stem that differ in the first 8-byte chunk and agree in the later ones × 4 tails; chains a, aa, aaa, ... of 33, 34, 65, 66 keys (C17 also 130 and 258) and a 36-level directory tree taken whole (deep nesting); every subset of the 15 strings of length ≤3 over {00,'a'} and every subset of size ≤4 of the 40 strings of length ≤3 over {00,'a',ff} behind stems of 0 and 8 bytes (thorough adds every subset of the 21 strings of length ≤2 over {00,01,'a',ff} and the subsets of size 5..6 of the 40 strings): FirstDiffBits on the set; New+CountPrefixes for every 0 ≤ s, s+2 ≤ e ≤ len and every m in {1,2,4,7,10,17}. Generated key lists of EVERY threshold size n = b-1, b, b+1 (b in 2^k, 3·2^k, 10^k, 2·10^k, 5·10^k) from 1000 up to 400001 keys (thorough: 2^20+1), in two styles ('k'+3-byte big-endian counter; 8-byte stem + 7 decimal digits): FirstDiffBits on the list, CountPrefixes (m in {1,7,17}) over the whole list, its halves and short ranges around every 1/8th. LONG keys: eight keys around a shared stem of EVERY threshold length 81..70000 (thorough 2^20+1) bytes (keys and shared prefixes beyond 255, 4095, 65535 bytes), same calls. UNSORTED lists (the first clause is about every list): FirstDiffBits on every list of 1..4 (thorough 5) keys, repetitions included, over 15 keys (short keys, prefixes of each other, keys sharing 8, 16, 17 and 25 bytes, stem variants that differ early and agree later). " +
 			"Oracle: first differing index of the '0'/'1' renderings (8·min(len) for a byte-prefix); m0 = minimum over the range; counter i = number of distinct values of the bit string truncated to m0+i bits (adjacent-compare count in the hot path, cross-checked against a map count). A case is one call; non-trivial when the range holds ≥3 keys or the set has a shared stem; key sets that re-occur in a later family are executed again but counted once.",
 		Assumptions: []string{"key sets are drawn from small byte alphabets behind fixed stems; the 8-byte chunk boundaries are crossed through the stems"},
 		Run:         c16Run,
@@ -622,6 +647,70 @@ func c16Run(c *mc.Ctx) {
 		c.Add("map_count_crosschecks", cross)
 	})
 	c16Big(c)
+	c16Unsorted(c)
+}
+
+// c16Unsorted: the first clause holds for EVERY non-empty list of keys, sorted or not, with repeated
+// keys or not: FirstDiffBits on every list of 1..4 (thorough 5) keys over 15 keys (short keys, prefixes
+// of each other, keys sharing 8, 16, 17 and 25 bytes, stem variants that differ early and agree later).
+func c16Unsorted(c *mc.Ctx) {
+	u := []string{"", "a", "b", "\x00", "a\x00", "ab",
+		c09StemV(8, 0), c09StemV(8, 0) + "a", c09StemV(9, 0), c09StemV(16, 0),
+		c09StemV(17, 0) + "a", c09StemV(17, 0) + "b", c09StemV(17, 1) + "a",
+		c09StemV(25, 0) + "x", c09StemV(25, 3) + "x"}
+	maxLen := c.Pick(4, 5)
+	c.Set("unsorted_lists_universe", len(u))
+	c.Set("unsorted_lists_max_len", maxLen)
+	ubits := make([]string, len(u))
+	for i, k := range u {
+		ubits[i] = ref.Bits(k)
+	}
+	// pairwise reference
+	pair := make([][]int32, len(u))
+	for i := range u {
+		pair[i] = make([]int32, len(u))
+		for j := range u {
+			a, b := ubits[i], ubits[j]
+			d := 0
+			for d < len(a) && d < len(b) && a[d] == b[d] {
+				d++
+			}
+			pair[i][j] = int32(d)
+		}
+	}
+	for l := 1; l <= maxLen; l++ {
+		c.Expect(gen.PowInt(len(u), l))
+	}
+	c.Par(len(u), func(first int) {
+		var evals, nontriv int64
+		for l := 1; l <= maxLen; l++ {
+			gen.Product(len(u), l-1, func(rest []int) {
+				ix := append([]int{first}, rest...)
+				keys := make([]string, l)
+				want := make([]int32, 0, l)
+				sorted := true
+				for k, x := range ix {
+					keys[k] = u[x]
+					if k > 0 {
+						want = append(want, pair[ix[k-1]][x])
+						if u[ix[k-1]] >= u[x] {
+							sorted = false
+						}
+					}
+				}
+				got, p := firstDiffBits(keys)
+				if p != "" || !eqI32(got, want) {
+					c.Fail(20<<50|int64(first)<<40|evals, "FirstDiffBits", "FirstDiffBits/unsorted", c16Case{Keys: gen.BytesList(keys)}, p+fmt.Sprint(got), fmt.Sprint(want))
+				}
+				evals++
+				if !sorted && l >= 3 {
+					nontriv++
+				}
+			})
+		}
+		c.Count(evals, nontriv)
+		c.Add("unsorted_lists", evals)
+	})
 }
 
 func binom(n, k int) int64 {
